@@ -219,6 +219,9 @@ class OperatorNot(OperatorBase):
     
     def operate_unary(self, tokens):
         right = tokens.get_right()
+        if isinstance(right, OperatorNot):  # repeated negation: evaluate the inner one first
+            right.operate_unary(tokens)
+            right = tokens.get_right()
         tokens.put_right(right.logical_not())
         
 class OperatorEq(OperatorBase):
